@@ -4,6 +4,7 @@ package main
 // code relies on, and abstract error objects.
 
 import (
+	"path"
 	"fmt"
 	"go/constant"
 	"go/token"
@@ -417,6 +418,19 @@ func builtinModels(in *Interp, site ssa.CallInstruction, name string, args []Val
 				if len(buf.E) == 0 {
 					return in.itoaText(args[1]), true
 				}
+			}
+		}
+		return nil, false
+	case "path/filepath.ToSlash", "path/filepath.FromSlash", "path.Clean", "path/filepath.Clean":
+		// on a constant text the function is simply applied (on the platform
+		// under analysis the separator is the slash unless GOOS says otherwise;
+		// only separator-free constants are folded)
+		if k, ok := args[0].(Konst); ok {
+			if sv, ok := constStringVal(k); ok && !strings.ContainsAny(sv, `/\`) {
+				if strings.HasSuffix(name, "Clean") {
+					return kStr(path.Clean(sv)), true
+				}
+				return kStr(sv), true
 			}
 		}
 		return nil, false
